@@ -45,8 +45,6 @@ func VerifC15_TaxAmount() {
 		return
 	}
 	sym.Reach("tax-non-exempt")
-	sym.Dump("got", got)
-	sym.Dump("prod", prod)
 	// got == floor(amount*num/den)  <=>  got*den <= amount*num < (got+1)*den
 	g := got.BigInt()
 	d := new(big.Int).SetUint64(den)
